@@ -810,6 +810,7 @@ func runC13(c *Ctx) {
 	ruleBoundSide(c, "mdiff")
 	ruleSiblingGuard(c, "mdiff")
 	ruleUnifyOrder(c)
+	ruleMergeTarget(c)
 	ruleAllocBounded(c, "mdiff", false)
 
 	// ---- R-LR-MIRROR
@@ -2107,5 +2108,102 @@ func ruleEmitRun(c *Ctx, fn *ssa.Function, lhs, rhs *ssa.Parameter) {
 			c.judge(p == sl.Low || sym(p) == sym(sl.Low), "R-EDIT-SPAN", fmt.Sprintf("%s:Emit run counted from the span's start #%d", name, nRun), ia.Pos(), "the run is counted from the offset the Emit span starts at",
 				fmt.Sprintf("the run of kept elements is counted from %s, but the Emit span starts at %s: when the two differ (a cursor not advanced on some path) the span covers the wrong elements or a run is split into adjacent Emit edits", ksym(p), ksym(sl.Low)))
 		})
+	}
+}
+
+// ruleMergeTarget: UnifyChunks folds each chunk into the LAST chunk kept so far.
+// The chunk whose end is compared with the next chunk's start must therefore be
+// re-read from the list of kept chunks on every iteration, or be a variable that
+// the loop updates; a value fixed before the loop keeps comparing (and merging)
+// with the first chunk after others have been kept apart.
+func ruleMergeTarget(c *Ctx) {
+	P := c.P
+	c.rule("R-MERGE-TARGET", 1, "the chunk a successor is compared and merged with is read from the list of kept chunks each time round, or is a variable updated in the loop")
+	unify := P.Func("mdiff", "", "UnifyChunks")
+	chunkT := P.Named("mdiff", "Chunk")
+	if unify == nil || chunkT == nil {
+		c.undecided("ANCHOR", "mdiff.UnifyChunks", 0, "not found")
+		return
+	}
+	isChunkPtr := func(t types.Type) bool {
+		p, ok := t.Underlying().(*types.Pointer)
+		return ok && isNamedOrigin(p.Elem(), chunkT)
+	}
+	n := 0
+	for _, fn := range buildCallScope(unify).fns {
+		fn := fn
+		allInstrs(fn, func(in ssa.Instruction) {
+			bo, ok := in.(*ssa.BinOp)
+			if !ok {
+				return
+			}
+			switch bo.Op {
+			case token.LSS, token.LEQ, token.GTR, token.GEQ:
+			default:
+				return
+			}
+			bx, fx := loadedField(bo.X)
+			by, fy := loadedField(bo.Y)
+			if fx == nil || fy == nil || sameField(fx, fy) || !isChunkPtr(bx.Type()) || !isChunkPtr(by.Type()) || bx == by {
+				return
+			}
+			// in a loop?
+			inLoop := false
+			for d := bo.Block(); d != nil; d = d.Idom() {
+				for _, p := range d.Preds {
+					if d.Dominates(p) {
+						inLoop = true
+					}
+				}
+			}
+			if !inLoop {
+				return
+			}
+			// one side is the element the loop is at (changes every iteration), the other the merge target
+			judge := func(v ssa.Value) (string, bool) {
+				switch x := v.(type) {
+				case *ssa.Phi:
+					for i, e := range x.Edges {
+						if x.Block().Dominates(x.Block().Preds[i]) && e != ssa.Value(x) {
+							return "a variable the loop updates", true
+						}
+					}
+					return "", false
+				case *ssa.Call, *ssa.UnOp, *ssa.Extract, *ssa.Index:
+					if x.(ssa.Instruction).Block() != nil {
+						// computed inside the loop?
+						b := x.(ssa.Instruction).Block()
+						for d := b; d != nil; d = d.Idom() {
+							for _, p := range d.Preds {
+								if d.Dominates(p) {
+									return "read anew inside the loop", true
+								}
+							}
+						}
+					}
+					return "", false
+				case *ssa.Parameter:
+					return "a parameter of a helper (judged at the caller)", true
+				}
+				return "", false
+			}
+			wx, okx := judge(bx)
+			wy, oky := judge(by)
+			n++
+			c.sawFn(fnName(fn))
+			key := fmt.Sprintf("%s:chunks compared #%d", fnName(fn), n)
+			if okx && oky {
+				c.ok("R-MERGE-TARGET", key, bo.Pos(), wx+" / "+wy)
+				return
+			}
+			fixed := ksym(bx)
+			if okx {
+				fixed = ksym(by)
+			}
+			c.bad("R-MERGE-TARGET", key, bo.Pos(), fmt.Sprintf("the loop compares each chunk with %s, a value fixed before the loop: once a chunk has been kept apart, later chunks are still compared with (and merged into) the old one instead of the last chunk kept", fixed))
+		})
+	}
+	if n == 0 {
+		c.undecided("R-MERGE-TARGET", "mdiff.UnifyChunks:comparison of neighbouring chunks", unify.Pos(), "no comparison between fields of two chunks found in a loop")
 	}
 }
